@@ -62,8 +62,8 @@ func (g *Gen) builtin(b *ssa.Builtin, c *ssa.CallCommon, args []string, h *Heap,
 				n := g.vc.Fresh("copied", SInt)
 				g.vc.Def(Eq(n, Ite(App("<=", m.slLen(d), m.slLen(s)), m.slLen(d), m.slLen(s))))
 				dRow, sRow := Sel(E, m.slBase(d)), Sel(E, m.slBase(s))
-				B := fmt.Sprintf("(lambda ((i Int)) (ite (and (<= %s i) (< i (+ %s %s))) (select %s (+ %s (- i %s))) (select %s i)))",
-					m.slOff(d), m.slOff(d), n, sRow, m.slOff(s), m.slOff(d), dRow)
+				B := g.defRow("copy.row", es, fmt.Sprintf("(ite (and (<= %s i) (< i (+ %s %s))) (select %s (+ %s (- i %s))) (select %s i))",
+					m.slOff(d), m.slOff(d), n, sRow, m.slOff(s), m.slOff(d), dRow))
 				return h.Set(name, srt, Sto(E, m.slBase(d), B)), []string{n}
 			}
 			name := elemVar(sl.Elem())
@@ -116,6 +116,30 @@ func (g *Gen) nopanicClose(guard, goal string, pos token.Pos) {
 	g.vc.Assert(name, "nopanic", guard, goal, g.pos(pos), "close of a channel that is not yet closed")
 }
 
+// singleUse: the SSA value is used by exactly one instruction (ignoring debug references).
+func singleUse(v ssa.Value) bool {
+	refs := v.Referrers()
+	if refs == nil {
+		return false
+	}
+	n := 0
+	for _, r := range *refs {
+		if _, dbg := r.(*ssa.DebugRef); dbg {
+			continue
+		}
+		n++
+	}
+	return n == 1
+}
+
+// defRow names an array given by a lambda body over index variable i (quantified definition with a
+// select pattern; inline lambdas inside nested arrays make z3 give up with "incomplete (theory array)").
+func (g *Gen) defRow(prefix string, es Sort, body string) string {
+	sym := g.vc.Fresh(prefix, ArrSort(SInt, es))
+	g.vc.Def(fmt.Sprintf("(forall ((i Int)) (! (= (select %s i) %s) :pattern ((select %s i))))", sym, body, sym))
+	return sym
+}
+
 func (g *Gen) appendBuiltin(c *ssa.CallCommon, args []string, h *Heap, guard string) (*Heap, []string) {
 	m := g.model
 	st := c.Args[0].Type().Underlying().(*types.Slice)
@@ -134,7 +158,13 @@ func (g *Gen) appendBuiltin(c *ssa.CallCommon, args []string, h *Heap, guard str
 	lenS, lenT := m.slLen(s), m.slLen(t)
 	newLen := App("+", lenS, lenT)
 	inPlace := g.vc.Fresh("append.inplace", SBool)
-	g.vc.Def(Eq(inPlace, And(App("<=", newLen, m.slCap(s)), Not(Eq(m.slBase(s), "0")))))
+	if freshSliceVal(c.Args[0]) && singleUse(c.Args[0]) {
+		// the old slice value is function-local and dead after this append: writing in place or into a
+		// new array is indistinguishable; model the copy only
+		g.vc.Def(Not(inPlace))
+	} else {
+		g.vc.Def(Eq(inPlace, And(App("<=", newLen, m.slCap(s)), Not(Eq(m.slBase(s), "0")))))
+	}
 	// fresh backing array for the reallocating case
 	nb, h2 := m.alloc(h, guard, "array")
 	A := g.vc.Fresh("append.arr", ArrSort(SInt, es))
@@ -158,17 +188,18 @@ func (g *Gen) appendBuiltin(c *ssa.CallCommon, args []string, h *Heap, guard str
 	_ = A
 	if single != "" {
 		inplaceRow = Sto(oldRow, App("+", m.slOff(s), lenS), single)
-		A = fmt.Sprintf("(lambda ((i Int)) (ite (and (<= 0 i) (< i %s)) (select %s (+ %s i)) (ite (= i %s) %s (select %s i))))", lenS, oldRow, m.slOff(s), lenS, single, rest)
+		A = g.defRow("append.new", es, fmt.Sprintf("(ite (and (<= 0 i) (< i %s)) (select %s (+ %s i)) (ite (= i %s) %s (select %s i)))", lenS, oldRow, m.slOff(s), lenS, single, rest))
 	} else {
 		tRow := Sel(E, m.slBase(t))
-		inplaceRow = fmt.Sprintf("(lambda ((i Int)) (ite (and (<= (+ %s %s) i) (< i (+ %s %s %s))) (select %s (+ %s (- i (+ %s %s)))) (select %s i)))",
-			m.slOff(s), lenS, m.slOff(s), lenS, lenT, tRow, m.slOff(t), m.slOff(s), lenS, oldRow)
-		A = fmt.Sprintf("(lambda ((i Int)) (ite (and (<= 0 i) (< i %s)) (select %s (+ %s i)) (ite (and (<= %s i) (< i (+ %s %s))) (select %s (+ %s (- i %s))) (select %s i))))",
-			lenS, oldRow, m.slOff(s), lenS, lenS, lenT, tRow, m.slOff(t), lenS, rest)
+		inplaceRow = g.defRow("append.inplacerow", es, fmt.Sprintf("(ite (and (<= (+ %s %s) i) (< i (+ %s %s %s))) (select %s (+ %s (- i (+ %s %s)))) (select %s i))",
+			m.slOff(s), lenS, m.slOff(s), lenS, lenT, tRow, m.slOff(t), m.slOff(s), lenS, oldRow))
+		A = g.defRow("append.new", es, fmt.Sprintf("(ite (and (<= 0 i) (< i %s)) (select %s (+ %s i)) (ite (and (<= %s i) (< i (+ %s %s))) (select %s (+ %s (- i %s))) (select %s i)))",
+			lenS, oldRow, m.slOff(s), lenS, lenS, lenT, tRow, m.slOff(t), lenS, rest))
 	}
-	newE := Ite(inPlace, Sto(E, m.slBase(s), inplaceRow), Sto(E, nb, A))
-	h2 = h2.Set(name, srt, newE)
-	return h2, []string{r}
+	hIn := h2.Set(name, srt, Sto(E, m.slBase(s), inplaceRow))
+	hRe := h2.Set(name, srt, Sto(E, nb, A))
+	h3 := g.vc.JoinHeaps([]heapEdge{{inPlace, hIn}, {Not(inPlace), hRe}})
+	return h3, []string{r}
 }
 
 // ---------- write sets ----------
@@ -364,6 +395,13 @@ func freshSliceVal(v ssa.Value) bool {
 				return freshRoot(a.X)
 			}
 			v = a.X
+		case *ssa.Call:
+			// the result of append() on a fresh slice is fresh
+			if b, ok := a.Call.Value.(*ssa.Builtin); ok && b.Name() == "append" && len(a.Call.Args) > 0 {
+				v = a.Call.Args[0]
+				continue
+			}
+			return false
 		default:
 			return false
 		}
